@@ -689,10 +689,14 @@ impl Axecutor {
                 ));
             }
 
-            if self.mem_init_zero(start, length).is_ok() {
+            // Sections are addressed by their start (mem_resize_section, mem_prot), so the new one must not
+            // share its start with an existing area: an empty area overlaps nothing and would be allowed there
+            if self.state.memory.iter().all(|area| area.start != start)
+                && self.mem_init_zero(start, length).is_ok()
+            {
                 break;
             }
-            start += length;
+            start += length.max(1);
         }
 
         Ok(start)
